@@ -9,6 +9,8 @@ nodes are decimal numbers.  A word `names=<scheme>` is ignored.
   map <graph>                 NewMap: ok nl= ne= nc= <node>;<layer>;<ins>;<outs>;<allIns>;<allOuts>;<critIns>;<critOuts> ...
   layout <graph>              Layout: ok w= h= <node>;<x>;<y> ...
   revlayout <graph>           RevLayout: same, after Map.Reverse / MapView.Reverse
+  entries <graph>             every entry point that validates a graph (CheckDAG, NewMap, TopoSort, Layout,
+                              LayoutJSON, RevLayout, RevLayoutJSON): verdicts, and TopoSort's order
   rev <graph>                 Graph.Reverse once:  <node>:<outs> ...
   rev2 <graph>                Graph.Reverse twice
 -/
@@ -70,6 +72,32 @@ def newMapErr : NewMapRes → String
   | .panicNoCircle => "panic"
   | .outOfFuel => "fuel"
 
+def verdictWord : Check → String
+  | .ok _ => "ok"
+  | .missing => "missing"
+  | .circle _ => "circle"
+  | .panicNoCircle => "panic"
+  | .outOfFuel => "fuel"
+
+/-- verdict of `Layout` on `g`: `NewMap`, then `LayoutMap` -/
+def layoutVerdict (g : Graph) : String :=
+  match newMap g with
+  | .ok m =>
+    match layoutMap m with
+    | .ok _ => "ok"
+    | .panic => "panic"
+    | .fuel => "fuel"
+  | _ => verdictWord (checkDAG g)
+
+def showEntries (g : Graph) : String :=
+  let v := verdictWord (checkDAG g)
+  let topo := match newMap g with
+    | .ok m => s!"ok:{showRaw (sortedNodes m)}"
+    | _ => v
+  let lv := layoutVerdict g
+  let rv := layoutVerdict (reverseG g)
+  s!"check={v} map={v} topo={topo} layout={lv} layoutjson={lv} revlayout={rv} revlayoutjson={rv}"
+
 def step (_ : Unit) (line : String) : Unit × String :=
   -- `names=<scheme>` only tells the harness how to spell the nodes; the model keys by identity
   let ws := (words line).filter fun w => !(w.startsWith "names=")
@@ -115,6 +143,10 @@ def step (_ : Unit) (line : String) : Unit × String :=
           | .panic => "panic"
           | .fuel => "fuel"
         | r => newMapErr r
+      | none => "bad-op"
+    | "entries" :: rest =>
+      match parseGraph rest with
+      | some g => showEntries g
       | none => "bad-op"
     | "rev" :: rest =>
       match parseGraph rest with
